@@ -92,6 +92,7 @@ pub fn record_quantile(path: &str, seed: u64, n: usize, rep: &mut Report) {
 
 // ------------------------------------------------------------------------------- histograms
 use crate::hist::{self, HistT};
+use crate::hist_types as ht;
 use std::panic::{catch_unwind, AssertUnwindSafe};
 
 const TOKENS: [&str; 9] = ["ninf", "m1", "nz", "pz", "half", "one", "two", "pinf", "nan"];
@@ -164,11 +165,7 @@ fn record_hist_typed<H: HistT>(out: &mut impl Write, rng: &mut Xoshiro256PlusPlu
                     w[s] = Some(h);
                 }
                 Err(e) => {
-                    let en = match e {
-                        average::InvalidRangeError::NaN => "NaN",
-                        average::InvalidRangeError::NotSorted => "NotSorted",
-                        average::InvalidRangeError::NotEnoughRanges => "NotEnoughRanges",
-                    };
+                    let en = e;
                     writeln!(out, "{}", json!({"op": "build", "slot": s + 1, "list": list, "ok": false, "err": en})).unwrap();
                 }
             }
@@ -226,15 +223,15 @@ pub fn record_histogram(path: &str, seed: u64, n: usize, len: usize, rep: &mut R
         rep.behaviours += 1;
         rep.nontrivial.insert(hash_str(&format!("hist{len}{seed}{r}")));
         match len {
-            2 => record_hist_typed::<hist::h2::Histogram>(&mut out, &mut rng, n / runs, rep),
+            2 => record_hist_typed::<ht::h2::Histogram>(&mut out, &mut rng, n / runs, rep),
             10 => {
                 if r % 2 == 0 {
                     record_hist_typed::<average::Histogram10>(&mut out, &mut rng, n / runs, rep)
                 } else {
-                    record_hist_typed::<hist::h10::Histogram>(&mut out, &mut rng, n / runs, rep)
+                    record_hist_typed::<ht::h10::Histogram>(&mut out, &mut rng, n / runs, rep)
                 }
             }
-            100 => record_hist_typed::<hist::h100::Histogram>(&mut out, &mut rng, n / runs, rep),
+            100 => record_hist_typed::<ht::h100::Histogram>(&mut out, &mut rng, n / runs, rep),
             _ => panic!("no recorder for LEN {len}"),
         }
     }
